@@ -419,7 +419,7 @@ func TestCheck(t *testing.T) {
 	_ = rand.Reader
 	r.Note("rule", "every connection has the independent reference implementation on one side: grid of role (reference client vs real server / real client vs reference server) x bridge-line form (cert / legacy node-id+public-key) x IAT mode x table bias x chunking of what the real side reads x padding choice (PRNG, reference at both extremes, real side steered to its minimum and maximum), fresh identity and seed per connection, PRNG payload scripts both ways with reference frames of varied payload/padding split; plus known-answer comparison of ntor.Kdf, the DRBG and framing with the reference on random inputs. Non-trivial = handshake completed and all payload verified in both directions; distinct = distinct parameter tuple.")
 	dir := o4.StateDir("c06")
-	nPer := r.Pick(1, 16)
+	nPer := r.Pick(2, 16)
 	for _, role := range []string{"refclient", "refserver"} {
 		for _, legacy := range []bool{false, true} {
 			if role == "refclient" && legacy {
